@@ -18,8 +18,12 @@ tests; anything else stops the run as an analysis error):
   N-R5  mag of a Python int / a rational: the closed forms bitcount(|x|) and 1 + bitcount(|p|) -
         bitcount(q) are evaluated from the source on a grid of values against |x| <= 2^m <= 4|x|...
         (grid evaluation of a closed form, not a proof)
-NOT decided: nint_distance (bit manipulation of the mantissa: a value-level question), the fp and
-iv contexts, Python floats/complex (converted by ctx.convert: C09).
+  N-R6  nint_distance: the rational branch and the mpf branch (closed-form integer arithmetic on
+        (p, q) / (sign, man, exp)) evaluated from the source on a grid against "n is a nearest
+        integer, d = -inf iff x is an integer, else 2^(d-2) <= |x - n| < 2^(d+1)" (grid
+        evaluation, not a proof)
+NOT decided: nint_distance beyond that grid, the fp and iv contexts, Python floats/complex
+(converted by ctx.convert: C09).
 """
 import ast
 from fractions import Fraction
@@ -127,6 +131,8 @@ def run(run, ix, tier):
     check_mag(run, ix, lookup)
     check_ldexp_frexp(run, ix, lookup)
     check_mag_grid(run, ix, lookup)
+    run.rule('N-R6', floor=2, desc='nint_distance: rational and mpf branches as closed forms on a grid')
+    check_nint_distance(run, ix)
 
 
 def where(ix, name):
@@ -435,3 +441,138 @@ def check_mag_grid(run, ix, lookup):
                              % ('%d' % bad[0] if kind == 'int' else '%d/%d' % bad[:2], bad[2]), line=f.lineno))
         else:
             run.ok('N-R5', 'mag, %s branch: %d grid values' % (kind, n))
+
+
+# ---------------------------------------------------------------------------------------------
+# N-R6  nint_distance: the int, rational and mpf branches are closed-form integer arithmetic on
+# (p, q) resp. (sign, man, exp, bc).  They are EVALUATED from the syntax tree on a grid (not a proof;
+# the grid covers every sign, half-integers, values just below / above integers, |x| < 1/2 and
+# integers) against the specification: n is a nearest integer of x (|x - n| <= 1/2), d = -inf iff
+# x is an integer, otherwise 2^(d-2) <= |x - n| < 2^(d+1).
+class _Grid(object):
+    def __init__(self):
+        from ..formula import Evaluator
+        outer = self
+
+        class Ev(Evaluator):
+            def ev(self, e, env):
+                if isinstance(e, ast.Call) and norm(e.func) == 'bitcount':
+                    return int(self.ev(e.args[0], env)).bit_length()
+                if isinstance(e, ast.Attribute) and norm(e) == 'ctx.ninf':
+                    return float('-inf')
+                if isinstance(e, ast.Attribute) and e.attr == '_mpq_':
+                    return env['__pq']
+                if isinstance(e, ast.Call) and norm(e.func) == 'divmod':
+                    return divmod(self.ev(e.args[0], env), self.ev(e.args[1], env))
+                if isinstance(e, ast.Tuple):
+                    return tuple(self.ev(x, env) for x in e.elts)
+                if isinstance(e, ast.BinOp) and isinstance(e.op, ast.BitAnd):
+                    return self.ev(e.left, env) & self.ev(e.right, env)
+                if isinstance(e, ast.Name) and e.id == 'fzero':
+                    return (0, 0, 0, 0)
+                return Evaluator.ev(self, e, env)
+
+            def block(self, body, env):
+                for st in body:
+                    if isinstance(st, ast.Assign) and isinstance(st.targets[0], ast.Tuple):
+                        vals = self.ev(st.value, env)
+                        for t, v in zip(st.targets[0].elts, vals):
+                            env[t.id] = v
+                        continue
+                    if isinstance(st, ast.AugAssign) and isinstance(st.target, ast.Name):
+                        cur = env[st.target.id]
+                        v = self.ev(st.value, env)
+                        env[st.target.id] = {ast.Add: cur + v, ast.Sub: cur - v}[type(st.op)] \
+                            if isinstance(st.op, (ast.Add, ast.Sub)) else None
+                        continue
+                    if isinstance(st, ast.Raise):
+                        raise ValueError('raise')
+                    if isinstance(st, ast.If):
+                        r = self.block(st.body if self.ev(st.test, env) else st.orelse, env)
+                        if r is not None:
+                            return r
+                        continue
+                    r = Evaluator.block(self, [st], env)
+                    if r is not None:
+                        return r
+                return None
+        self.Ev = Ev
+
+
+def check_nint_distance(run, ix):
+    rel, f = where(ix, 'nint_distance')
+    body = [st for st in f.node.body if not (isinstance(st, ast.Expr) and isinstance(st.value, ast.Constant))]
+    # the rational branch and the common mpf tail
+    mpq_body = None
+    for st in ast.walk(f.node):
+        if isinstance(st, ast.If) and 'mpq' in norm(st.test) and 'typx' in norm(st.test):
+            mpq_body = st.body
+    tail = None
+    for i, st in enumerate(body):
+        if isinstance(st, ast.Assign) and isinstance(st.targets[0], ast.Tuple) and norm(st.value) == 're' and \
+                len(st.targets[0].elts) == 4:
+            tail = body[i:]
+    if mpq_body is None or tail is None:
+        raise AnalysisError('nint_distance: rational branch / mpf tail not found')
+    G = _Grid()
+
+    def judge(x, res):
+        if not (isinstance(res, tuple) and len(res) == 2):
+            return 'returns %r' % (res,)
+        n, d = res
+        if not isinstance(n, int) or abs(x - n) > Fraction(1, 2):
+            return 'n = %r is not a nearest integer' % (n,)
+        if x == n:
+            return None if d == float('-inf') else 'd = %r for an integer (expected -inf)' % (d,)
+        if not isinstance(d, int):
+            return 'd = %r for a non-integer' % (d,)
+        dist = abs(x - n)
+        if not (Fraction(2) ** (d - 2) <= dist < Fraction(2) ** (d + 1)):
+            return 'd = %d but |x - n| = %s (2^%.2f)' % (d, dist, __import__('math').log(dist, 2))
+        return None
+    # rationals
+    bad = None
+    n = 0
+    for q in list(range(1, 33)) + [1000, 1000000]:
+        for p in list(range(-3 * q - 2, 3 * q + 3)) if q < 40 else [q - 1, q + 1, -q + 1, 2 * q - 1, q // 2, q // 2 + 1, 3 * q + 1]:
+            fr = Fraction(p, q)
+            if fr.denominator != q:
+                continue
+            n += 1
+            try:
+                res = G.Ev().block(mpq_body, {'__pq': (p, q), 'x': None})
+            except AnalysisError as e:
+                raise AnalysisError('nint_distance (rational branch): %s' % e)
+            why = judge(fr, res)
+            if why and bad is None:
+                bad = ('%d/%d' % (p, q), why)
+    if bad:
+        run.fail(Finding('N-R6', rel, f.qualname, 'nint_distance (rational branch)',
+                         'nint_distance(%s): %s' % bad, line=f.lineno))
+    else:
+        run.ok('N-R6', 'rational branch: %d grid values' % n)
+    # mpf tail
+    bad = None
+    n = 0
+    for sign in (0, 1):
+        for man in [m for m in range(1, 130, 2)] + [2 ** 20 + 1, 2 ** 53 - 1]:
+            for exp in range(-12, 5):
+                n += 1
+                x = Fraction(man) * Fraction(2) ** exp * (-1 if sign else 1)
+                env = {'re': (sign, man, exp, man.bit_length()), 'im_dist': float('-inf')}
+                try:
+                    res = G.Ev().block(tail, env)
+                except AnalysisError as e:
+                    raise AnalysisError('nint_distance (mpf branch): %s' % e)
+                why = judge(x, res)
+                if why and bad is None:
+                    bad = ('%s * 2**%d' % ('-%d' % man if sign else man, exp), why)
+    env = {'re': (0, 0, 0, 0), 'im_dist': float('-inf')}
+    res = G.Ev().block(tail, env)
+    if res != (0, float('-inf')) and bad is None:
+        bad = ('0', 'returns %r' % (res,))
+    if bad:
+        run.fail(Finding('N-R6', rel, f.qualname, 'nint_distance (mpf branch)',
+                         'nint_distance(%s): %s' % bad, line=f.lineno))
+    else:
+        run.ok('N-R6', 'mpf branch: %d grid values (all signs, half-integers, |x| < 1/2, integers)' % n)
